@@ -45,7 +45,7 @@ func xs(s *uint64) uint64 {
 	return x
 }
 
-var par2c = gf16.PAR2Constants(64)
+var par2c = gf16.PAR2Constants(2048)
 
 func coef(coder string, d, i, j int) uint16 {
 	if coder == "cauchy" {
@@ -622,6 +622,26 @@ func TestCheck(t *testing.T) {
 			do(Case{Op: "rec", Coder: "cauchy", D: 4, P: 3, Len: l, G: g, Procs: procs[idx%len(procs)], MissD: []int{1, 3}, Seed: uint64(idx)})
 		}
 	}
+	// hundreds of short data shards (more shards than 16-byte units per goroutine), repeated: schedule-dependent merging of partial results
+	for ci, dl := range [][3]int{{513, 2, 32}, {300, 3, 16}, {1025, 2, 48}, {260, 4, 2}} {
+		idx++
+		if !cfg.Mine(idx) {
+			continue
+		}
+		reps := cfg.N(60, 400)
+		if raceEnabled {
+			reps /= 4
+		}
+		rec.Class("many-short-shards-repeated")
+		for r := 0; r < reps; r++ {
+			if !do(Case{Op: "gen", Coder: "cauchy", D: dl[0], P: dl[1], Len: dl[2], G: 8, Procs: 8, Seed: uint64(ci*1000 + r%7 + 1)}) {
+				break
+			}
+			if r%10 == 0 && !do(Case{Op: "rec", Coder: "vand", D: dl[0], P: dl[1], Len: dl[2], G: 8, Procs: 8, MissD: []int{0, dl[0] - 1}, Seed: uint64(ci*1000 + r + 1)}) {
+				break
+			}
+		}
+	}
 	// input shards at odd addresses
 	for _, l := range []int{96, 4098, 65536*3 + 32, 1 << 20} {
 		for _, g := range []int{2, 3, 8, 64} {
@@ -651,7 +671,7 @@ func TestCheck(t *testing.T) {
 		if !cfg.Mine(7000+gi) && !cfg.Mine(7008+gi) {
 			continue
 		}
-		reps := cfg.N(500, 4000)
+		reps := cfg.N(900, 5000)
 		if raceEnabled {
 			reps /= 8
 		}
